@@ -972,6 +972,9 @@ def propagate_sets(items):
                             out.append(("text", p_[1], it[2], it[3]))
                         else:
                             out.append(("out", p_, it[2], it[3]))
+                elif e[0] == "const" and isinstance(e[1], str) and e != it[1]:
+                    # a variable bound to a string literal prints that literal: text
+                    out.append(("text", e[1], it[2], it[3]))
                 else:
                     out.append(("out", e) + tuple(it[2:]))
             elif k == "set":
